@@ -392,12 +392,15 @@ pub fn run_ops(plan: &Plan, ops: &[Op], init: &Script) -> Vec<Rec> {
         }
     };
     let mut script = init.clone();
+    SENSOR_UPDATE_ERR.with(|c| c.set(None));
     for op in ops {
         let r = guarded(|| {
             let mut ret = None;
             let mut extra = 0;
             script_step_rig(plan, &mut rig, &mut script, op);
             match op.code.as_str() {
+                // SUE k: from now on the sensors' own update() fails with error k (0: works again)
+                "SUE" => SENSOR_UPDATE_ERR.with(|c| c.set(if op.arg(0) == 0 { None } else { Some(op.arg(0) as u8) })),
                 "U" => ret = Some(norm_unit(&rig.node.update())),
                 "SET" => {
                     ret = Some(norm_unit(
